@@ -410,7 +410,9 @@ func c08(c *Ctx) (*report.Result, error) {
 		}
 	}
 	res.RuleDoc["O8.17"] = "each stream half registers under its own shard: the sender's delivery channel and ownership claim under its targetShardID, the receiver's ack channel, cancel function and active-receiver entry under its sourceShardID, the intra-proxy sender under (target, source) in that order - each site uses the named field of the function's own receiver"
-	checkShardIDRoles(c, res, "O8.17", func(kind, callee string) bool { return kind == "call" && callee != "DeliverAckToShardOwner" && callee != "GetRemoteSendChan" })
+	checkShardIDRoles(c, res, "O8.17", func(kind, callee string) bool {
+		return kind == "call" && callee != "DeliverAckToShardOwner" && callee != "GetRemoteSendChan"
+	})
 	res.RuleDoc["O8.11"] = "no swallowed error in the files the mechanism lives in: no function returns a nil error on a path on which an error obtained from a call is known to be non-nil (io.EOF from a stream Recv, the normal end of a receive loop, is the one accepted idiom)"
 	checkNoSwallowedErrors(c, res, "O8.11", []string{"proxy/proxy_streams.go", "proxy/intra_proxy_router.go", "proxy/shard_manager.go"})
 	return res, nil
